@@ -329,4 +329,174 @@ theorem tildeExpr_le (s : Str) (t : Tilde) (r : Str) (h : tildeExpr s = some (t,
       · simp only [Option.some.injEq, Prod.mk.injEq] at h; rw [← h.2]; omega
       · exact tildeUser_le _ _ _ h
 
+/-! ### Rendering a piece list and parsing it back (quote/escape/plain-text fragment) -/
+
+def renderAtoms : List Atom → Str
+  | [] => []
+  | a :: as => renderAtom a ++ renderAtoms as
+
+/-- A character that the word grammar never treats specially outside quotes (and that cannot start a tilde prefix). -/
+def Ordinary (c : Char) : Prop := c ≠ '\'' ∧ c ≠ '"' ∧ c ≠ '$' ∧ c ≠ '`' ∧ c ≠ '\\' ∧ c ≠ '~'
+
+def isTextAtom : Atom → Bool
+  | .text _ => true
+  | _ => false
+
+/-- The atoms of the restricted normal form. -/
+def OkAtom : Atom → Prop
+  | .text t => t ≠ [] ∧ ∀ c ∈ t, Ordinary c
+  | .sq b => '\'' ∉ b
+  | .esc s => ∃ c, s = ['\\', c]
+  | _ => False
+
+/-- Restricted normal form: single-quoted pieces without `'`, escapes `\c`, non-empty runs of ordinary characters,
+no two text runs adjacent. -/
+def NF : List Atom → Prop
+  | [] => True
+  | a :: rest => OkAtom a ∧ NF rest ∧ (isTextAtom a = true → ∀ b ∈ rest.head?, isTextAtom b = false)
+
+/-- The spans `position!()` gives the pieces when the remaining input is the rendering of the remaining pieces. -/
+def spannedFrom (tot : Nat) : List Atom → List SP
+  | [] => []
+  | a :: as => ⟨.atom a, tot - blen (renderAtoms (a :: as)), tot - blen (renderAtoms as)⟩ :: spannedFrom tot as
+
+theorem renderWord_spannedFrom (tot : Nat) (as : List Atom) : renderWord (spannedFrom tot as) = renderAtoms as := by
+  induction as with
+  | nil => rfl
+  | cons a as ih =>
+    unfold renderWord at ih ⊢
+    rw [spannedFrom, List.flatMap_cons, ih]
+    rfl
+
+theorem takeUntil_append (q : Char) (b r : Str) (hb : q ∉ b) : takeUntil q (b ++ q :: r) = some (b, r) := by
+  induction b with
+  | nil => simp [takeUntil]
+  | cons c cs ih =>
+    have hc : c ≠ q := fun e => hb (by simp [e])
+    have := ih (fun m => hb (List.mem_cons_of_mem _ m))
+    simp [takeUntil, hc, this]
+
+theorem litRun_ordinary (t R : Str) (ht : ∀ c ∈ t, Ordinary c) (hR : litRun false R = ([], R)) :
+    litRun false (t ++ R) = (t, R) := by
+  induction t with
+  | nil => simpa using hR
+  | cons c t ih =>
+    obtain ⟨h1, h2, h3, h4, h5, _⟩ := ht c (by simp)
+    have := ih (fun d hd => ht d (List.mem_cons_of_mem _ hd))
+    simp [litRun, h1, h2, h3, h4, h5, this]
+
+theorem litRun_stops_at_render (rest : List Atom) (h : NF rest) (hh : ∀ b ∈ rest.head?, isTextAtom b = false) :
+    litRun false (renderAtoms rest) = ([], renderAtoms rest) := by
+  cases rest with
+  | nil => simp [renderAtoms, litRun]
+  | cons a rest =>
+    obtain ⟨ha, _, _⟩ := h
+    cases a with
+    | text t => simp [isTextAtom] at hh
+    | sq b => simp [renderAtoms, renderAtom, litRun]
+    | esc s => obtain ⟨c, rfl⟩ := ha; simp [renderAtoms, renderAtom, litRun]
+    | tilde t => exact ha.elim
+    | param p => exact ha.elim
+    | paramOp p c o w => exact ha.elim
+    | cmd s => exact ha.elim
+    | arith s => exact ha.elim
+
+theorem wordGo_step (skip : Str → Res Str) (tot k : Nat) (c : Char) (r r' r'' : Str) (p : Piece) (ps : List SP)
+    (h1 : wordOne skip false tot c r = .ok (p, r')) (h2 : wordGo skip false tot k r' = .ok (ps, r'')) :
+    wordGo skip false tot (k + 1) (c :: r) = .ok (⟨p, tot - blen (c :: r), tot - blen r'⟩ :: ps, r'') := by
+  simp [wordGo, h1, h2]
+
+theorem wordGo_render (skip : Str → Res Str) (tot : Nat) (as : List Atom) :
+    ∀ k, NF as → (renderAtoms as).length < k →
+      wordGo skip false tot k (renderAtoms as) = .ok (spannedFrom tot as, []) := by
+  induction as with
+  | nil =>
+    intro k _ hk
+    cases k with
+    | zero => simp at hk
+    | succ k => simp [renderAtoms, wordGo, spannedFrom]
+  | cons a rest ih =>
+    intro k hnf hk
+    obtain ⟨ha, hrest, hadj⟩ := hnf
+    cases k with
+    | zero => simp at hk
+    | succ k =>
+      cases a with
+      | sq b =>
+        have e : renderAtoms (.sq b :: rest) = '\'' :: (b ++ '\'' :: renderAtoms rest) := by
+          simp [renderAtoms, renderAtom]
+        rw [e] at hk
+        have hk' : (renderAtoms rest).length < k := by simp at hk; omega
+        have h1 : wordOne skip false tot '\'' (b ++ '\'' :: renderAtoms rest) = .ok (.atom (.sq b), renderAtoms rest) := by
+          simp [wordOne, takeUntil_append _ b _ ha]
+        rw [spannedFrom, e]
+        exact wordGo_step skip tot k _ _ _ _ _ _ h1 (ih k hrest hk')
+      | esc s =>
+        obtain ⟨c, rfl⟩ := ha
+        have e : renderAtoms (.esc ['\\', c] :: rest) = '\\' :: c :: renderAtoms rest := by
+          simp [renderAtoms, renderAtom]
+        rw [e] at hk
+        have hk' : (renderAtoms rest).length < k := by simp at hk; omega
+        have h1 : wordOne skip false tot '\\' (c :: renderAtoms rest) = .ok (.atom (.esc ['\\', c]), renderAtoms rest) := by
+          simp [wordOne]
+        rw [spannedFrom, e]
+        exact wordGo_step skip tot k _ _ _ _ _ _ h1 (ih k hrest hk')
+      | text t =>
+        cases t with
+        | nil => exact (ha.1 rfl).elim
+        | cons c t =>
+          have e : renderAtoms (.text (c :: t) :: rest) = c :: (t ++ renderAtoms rest) := by
+            simp [renderAtoms, renderAtom]
+          rw [e] at hk
+          have hk' : (renderAtoms rest).length < k := by simp at hk; omega
+          obtain ⟨h1, h2, h3, h4, h5, _⟩ := ha.2 c (by simp)
+          have hl := litRun_ordinary t (renderAtoms rest) (fun d hd => ha.2 d (List.mem_cons_of_mem _ hd))
+            (litRun_stops_at_render rest hrest (hadj rfl))
+          have h1 : wordOne skip false tot c (t ++ renderAtoms rest)
+              = .ok (.atom (.text (c :: t)), renderAtoms rest) := by
+            unfold wordOne
+            simp only [h1, h2, h3, h4, if_false, hl]
+            split
+            · rename_i hc _; exact (h5 rfl).elim
+            · rfl
+          rw [spannedFrom, e]
+          exact wordGo_step skip tot k _ _ _ _ _ _ h1 (ih k hrest hk')
+      | tilde t => exact ha.elim
+      | param p => exact ha.elim
+      | paramOp p c o w => exact ha.elim
+      | cmd s => exact ha.elim
+      | arith s => exact ha.elim
+
+theorem render_not_tilde (as : List Atom) (h : NF as) (r : Str) : renderAtoms as ≠ '~' :: r := by
+  cases as with
+  | nil => simp [renderAtoms]
+  | cons a rest =>
+    obtain ⟨ha, _, _⟩ := h
+    cases a with
+    | sq b => simp [renderAtoms, renderAtom]
+    | esc s => obtain ⟨c, rfl⟩ := ha; simp [renderAtoms, renderAtom]
+    | text t =>
+      cases t with
+      | nil => exact (ha.1 rfl).elim
+      | cons c t =>
+        have := (ha.2 c (by simp)).2.2.2.2.2
+        simp [renderAtoms, renderAtom, this]
+    | tilde t => exact ha.elim
+    | param p => exact ha.elim
+    | paramOp p c o w => exact ha.elim
+    | cmd s => exact ha.elim
+    | arith s => exact ha.elim
+
+theorem parseWord_render (as : List Atom) (h : NF as) :
+    parseWord (renderAtoms as) = .ok (spannedFrom (blen (renderAtoms as)) as) := by
+  have key := wordGo_render (skipN ((renderAtoms as).length + 1)) (blen (renderAtoms as)) as
+    ((renderAtoms as).length + 1) h (Nat.lt_succ_self _)
+  unfold parseWord
+  simp only
+  split
+  · rename_i r heq
+    exact (render_not_tilde as h r heq).elim
+  · simp [key]
+
+
 end BrushVerif.WordParse
